@@ -33,7 +33,7 @@ from engine.shims import Shims
 from engine.symseq import SSeq, SStr, _items_of, in_range, in_set
 
 PID = "C13"
-OPS = ["setitem", "append", "update_pairs", "update_mapping", "setdefault"]
+OPS = ["setitem", "append", "update_pairs", "update_mapping", "setdefault", "update_headers_object", "update_mutable_headers_object"]
 
 META = {
     "functions": lambda: [MutableHeaders.__setitem__, MutableHeaders.append, MutableHeaders.__delitem__, DS.Headers.__init__, DS.Headers.__getitem__,
@@ -137,6 +137,10 @@ def job_headers(job) -> report.JobResult:
                 h.setdefault(k, v)
             elif op == "setitem_existing_case":
                 h[k.upper() if lk else k] = v
+            elif op == "update_headers_object":  # copying another (never validated) header mapping onto the response
+                h.update(DS.Headers({k: v}))
+            elif op == "update_mutable_headers_object":
+                h.update(MutableHeaders({k: v}))
         except ValueError as ex:
             raised = ex
         return h, before, raised
@@ -220,6 +224,10 @@ def concrete_headers(w) -> Optional[str]:
                 h.setdefault(k, v)
             elif op == "setitem_existing_case":
                 h[k.upper()] = v
+            elif op == "update_headers_object":
+                h.update(DS.Headers({k: v}))
+            elif op == "update_mutable_headers_object":
+                h.update(MutableHeaders({k: v}))
         except ValueError:
             if not dirty:
                 return "clean input rejected"
@@ -261,7 +269,13 @@ def job_cookie(job) -> report.JobResult:
 
     def fn():
         r = WR.Response() if job.get("iface", "wsgi") == "wsgi" else AR.Response()
-        r.set_cookie(name, value, **attrs)
+        if job.get("reassign"):
+            # the cookie is queued with plain token text first; name / value are public attributes and are re-assigned before sending
+            r.set_cookie("sid", "abc", **attrs)
+            r.cookies[-1].name = name
+            r.cookies[-1].value = value
+        else:
+            r.set_cookie(name, value, **attrs)
         hdrs = r.list_headers(as_bytes=False)
         line = [v for k, v in hdrs if k == "set-cookie"]
         if len(line) != 1:
@@ -298,7 +312,7 @@ def job_cookie(job) -> report.JobResult:
         if klass in (None, "twin-assert-false", "attribute-count-changed", "set-cookie-count") or (klass or "").startswith("exception"):
             e.last_sat = False
         m = e.witness()
-        wit = {"name": conc(name, m), "value": conc(value, m), "kw": job.get("cookie_kw", {})}
+        wit = {"name": conc(name, m), "value": conc(value, m), "kw": job.get("cookie_kw", {}), "reassign": bool(job.get("reassign"))}
         with shims.off():
             cp = concrete_cookie(wit)
         if klass is not None:
@@ -319,7 +333,11 @@ def job_cookie(job) -> report.JobResult:
 def concrete_cookie(w) -> Optional[str]:
     r = WR.Response()
     try:
-        r.set_cookie(w["name"], w["value"], **w.get("kw", {}))
+        if w.get("reassign"):
+            r.set_cookie("sid", "abc", **w.get("kw", {}))
+            r.cookies[-1].name, r.cookies[-1].value = w["name"], w["value"]
+        else:
+            r.set_cookie(w["name"], w["value"], **w.get("kw", {}))
         line = [v for k, v in r.list_headers(as_bytes=False) if k == "set-cookie"][0]
     except Exception as ex:  # noqa: BLE001
         return f"exception {type(ex).__name__}: {ex}"
@@ -477,6 +495,8 @@ def jobs(tier: str):
         for lv in range(0, b["cookie_value_len_max"] + 1):
             out.append(dict(name=f"cookie/n{ln}v{lv}", kind="cookie", ln=ln, lv=lv, weight=5 ** (ln + lv)))
     out.append(dict(name="cookie/asgi/n1v2", kind="cookie", ln=1, lv=2, iface="asgi"))
+    for ln, lv in ((0, 2), (1, 1), (1, 2), (2, 1)):
+        out.append(dict(name=f"cookie/reassigned/n{ln}v{lv}", kind="cookie", ln=ln, lv=lv, reassign=True, weight=5 ** (ln + lv)))
     out.append(dict(name="cookie/attrs/n1v1", kind="cookie", ln=1, lv=1, attrs={"max_age": 10, "secure": True, "httponly": True, "domain": "e.org"},
                     cookie_kw={"max_age": 10, "secure": True, "httponly": True, "domain": "e.org"}))
     out.append(dict(name="twin/cookie", kind="cookie", ln=1, lv=1, twin=True))
